@@ -147,6 +147,18 @@ inline std::string gen_ipv4_number(Rng& r) {
 }
 // Host whose last label is a number (so the IPv4 parser decides), with an optional domain-looking prefix.
 inline std::string gen_ipv4ish_host(Rng& r) {
+  if (r.chance(1, 6)) {
+    // a valid dotted quad with one more (or one fewer) short decimal part: "1.2.3.4.5", "9.1.2.3.4", "1.2.3"
+    std::string q = std::to_string(r.below(256)) + "." + std::to_string(r.below(256)) + "." + std::to_string(r.below(256)) + "." + std::to_string(r.below(256));
+    switch (r.below(4)) {
+      case 0: q += "." + std::to_string(r.below(10)); break;
+      case 1: q += "." + std::to_string(r.below(300)); break;
+      case 2: q = std::to_string(r.below(10)) + "." + q; break;
+      default: q = q.substr(0, q.rfind('.')); break;
+    }
+    if (r.chance(1, 8)) q += ".";
+    return q;
+  }
   std::string o;
   int parts = r.chance(1, 4) ? r.range(1, 5) : 4;
   if (r.chance(1, 5)) {  // "example.0X10", "a.b.09"
@@ -374,10 +386,11 @@ inline std::string gen_tail(Rng& r) {  // path?query#fragment
 inline std::string gen_port(Rng& r) {
   static const char* const p[] = {"",    ":",     ":80",   ":443",   ":8080", ":65535", ":65536", ":00080",
                                   ":0",  ":21",   ":99999", ":8a",   ":-1",   ":1",     ":12345", ":000000000443"};
-  if (r.chance(1, 8)) {
-    // numerically interesting ports: around 2^16, 2^32 and 2^64 (a value that wraps around in a 16/32/64-bit
+  if (r.chance(1, 6)) {
+    // numerically interesting ports (digit-count boundaries 10/100/1000/10000 as well): around 2^16, 2^32 and 2^64 (a value that wraps around in a 16/32/64-bit
     // accumulator lands on a small valid port), long digit strings, leading zeros in front of each
-    static const char* const big[] = {"65535", "65536", "65537", "131072", "4294967295", "4294967296", "4294967376", "4294967739",
+    static const char* const big[] = {"9", "10", "11", "99", "100", "101", "999", "1000", "1001", "9999", "10000", "10001",
+                                      "65535", "65536", "65537", "131072", "4294967295", "4294967296", "4294967376", "4294967739",
                                       "8589934613", "18446744073709551616", "18446744073709551696", "99999999999999999999"};
     std::string o = ":";
     if (r.chance(1, 4)) o += std::string(r.range(1, 12), '0');
